@@ -115,7 +115,7 @@ Section More.
       destruct literal; [exact H|].
       destruct (mem_str a (o_source orc :: s_incl h)); [exact H|].
       destruct (den_nested env orc rd true (set_incl (s_incl h ++ [a]) h)
-                  (join nl (splitlines file)) (0 + 1) false iho)
+                  (join nl (split_lines file)) (0 + 1) false iho)
         as [[[direct h2] b2]|] eqn:E; [|discriminate].
       simpl in H. assert (b2 = false) by (inversion H; reflexivity). subst b2.
       rewrite (topmono_nested rd Hm _ _ _ _ _ _ _ E). exact H.
@@ -162,7 +162,7 @@ Section More.
       o_opt_validate orc include_name (p_optblock p) = (attrs, warns) ->
       str_eqb a (o_source orc) = false ->
       (* the file's text, rendered as a document body with the include's heading offset *)
-      den_text_at env orc f true iho (set_incl [a] (sh0 e0)) (join nl (splitlines file) ++ nl) 1
+      den_text_at env orc f true iho (set_incl [a] (sh0 e0)) (join nl (split_lines file) ++ nl) 1
         = Ok (ns, h, false) ->
       render_doc env orc (S f) e0 (unlines (print_lines (Include path) []))
       = Ok (directive_warnings p warns 1 ++ ns, set_incl (removelast (s_incl h)) h).
@@ -185,7 +185,7 @@ Section More.
           by (simpl; rewrite Hsrc; reflexivity).
         unfold den_text_at in Hden. unfold den_nested.
         change (set_incl (s_incl (sh0 e0) ++ [a]) (sh0 e0)) with (set_incl [a] (sh0 e0)).
-        destruct (o_P orc (s_env (set_incl [a] (sh0 e0))) (join nl (splitlines file) ++ nl)) as [toks e'].
+        destruct (o_P orc (s_env (set_incl [a] (sh0 e0))) (join nl (split_lines file) ++ nl)) as [toks e'].
         change (0 + 1) with 1. rewrite Hden. simpl. rewrite app_nil_r. reflexivity.
     Qed.
   End Include.
@@ -194,15 +194,15 @@ Section More.
   Section SameFence.
     Hypothesis O_fence : fence_oracle env orc.
 
-    Theorem backtick_colon_same name first o len1 len2 X F e0 r :
-      wfW env orc (Adm false name first o Backtick len1) X ->
-      wfW env orc (Adm false name first o Colon len2) X ->
+    Theorem backtick_colon_same titled name first o len1 len2 X F e0 r :
+      wfW env orc (Adm titled name first o Backtick len1) X ->
+      wfW env orc (Adm titled name first o Colon len2) X ->
       startswith (unlines (opt_lines o ++ X)) colons3 = false ->
-      expected env orc (Adm false name first o Backtick len1) X
-        (fun k => den_text_at env orc F false 0 (sh0 e0) (unlines X) k) 1 = Ok r ->
-      render_doc env orc (1 + F) e0 (unlines (print_lines (Adm false name first o Backtick len1) X))
+      expected env orc F (Adm titled name first o Backtick len1) X
+        (fun h k => den_text_at env orc F false 0 h (unlines X) k) (sh0 e0) 1 = Ok r ->
+      render_doc env orc (1 + F) e0 (unlines (print_lines (Adm titled name first o Backtick len1) X))
         = Ok (fst (fst r), snd (fst r))
-      /\ render_doc env orc (1 + F) e0 (unlines (print_lines (Adm false name first o Colon len2) X))
+      /\ render_doc env orc (1 + F) e0 (unlines (print_lines (Adm titled name first o Colon len2) X))
         = Ok (fst (fst r), snd (fst r)).
     Proof.
       intros Hb Hc Hns Hexp. split.
@@ -228,7 +228,7 @@ Section More.
     = (do s1 <- extend_cur s (directive_warnings p warns position);
        do s2 <- nested_render_text env orc rr
                   (set_shr (set_incl (s_incl (shr s1) ++ [a]) (shr s1)) s1)
-                  (join nl (splitlines file)) 1 false None iho;
+                  (join nl (split_lines file)) 1 false None iho;
        extend_cur (set_shr (set_incl (removelast (s_incl (shr s2))) (shr s2)) s2) []).
   Proof.
     intros Hinfo Hline Hdir Hp Hargs Hfs Hopts Hval Hlog.
@@ -243,7 +243,7 @@ Section More.
       inversion E1; reflexivity. }
     rewrite Hshr, Hlog.
     change (0 + 1) with 1.
-    destruct (nested_render_text env orc rr _ (join nl (splitlines file)) 1 false None iho);
+    destruct (nested_render_text env orc rr _ (join nl (split_lines file)) 1 false None iho);
       reflexivity.
   Qed.
 
